@@ -1,5 +1,6 @@
 """Method-call translation (mixin of FnTr): std methods by receiver type, crate methods via their signatures."""
 from .types import *
+from .parser import N
 from .core import *
 
 ITER_IDENTITY = ('iter', 'into_iter', 'cloned', 'copied', 'clone', 'to_vec', 'to_owned', 'collect', 'into', 'as_slice', 'borrow')
@@ -35,6 +36,23 @@ class MethodMixin:
                 else:
                     first = ('done', get(), rty)
                 return self.call_sig(sig, [first] + list(args), e.line)
+        if name == 'into' and not args and tag in ('struct', 'enum', 'bdd', 'val', 'pval') and want is not None:
+            # `x.into()`: the `impl From<typeof x> for <expected type>` of the crate
+            w = res(want)
+            wowner = None if isinstance(w, TVar) else (OWNER_OF_TAG.get(w[0]) or (self.tr.struct_owner.get(w[1]) if w[0] == 'struct' else (w[1] if w[0] == 'enum' else None)))
+            if wowner is not None and deep(w) != deep(rty):
+                hits = []
+                for c in self.tr.crate.methods.get((wowner, 'from'), []):
+                    if c.trait != 'From': continue
+                    sg = self.tr.sig_of(c, self, e.line)
+                    if len(sg.params) == 1 and deep(res(sg.params[0][1])) == deep(rty):
+                        hits.append(sg)
+                if len(hits) != 1:
+                    self.fail('`.into()`: no unique `impl From<%r> for %s`' % (deep(rty), wowner), e.line)
+                return self.call_sig(hits[0], [('done', get(), rty)], e.line)
+        if tag == 'fmtr' and name == 'write_fmt' and len(args) == 1 and args[0].kind == 'Macro' and args[0].name == 'format_args' and pl is not None:
+            m = args[0]
+            return self.write_macro(N('Macro', e.line, name='write', args=[e.recv] + list(m.args), repeat=None))
         if name == 'clone' or (name in ('to_owned', 'borrow', 'as_ref', 'into') and not args):
             return get(), rty
 
